@@ -1694,8 +1694,506 @@ def drv_weighted(tier, seed):
   return rec.result()
 
 
+# ---------------------------------------------------------------------------
+# Driver 8: scheduled hyper-parameters.  Every count / proportion / probability
+# / index parameter of the shipped operators (`n` of the selectors, `k` of
+# KPoint, where.Any, Repeat `*` and Power `**`, `limit` and the probabilities
+# of Choice / with_prob, `max_attempts` of until_change, the index of `[]`)
+# may be a schedule: "a callable object that returns a value based on a step",
+# for which the package ships the schedule library `pg.evolution.scalars`.
+#
+# Oracle: a schedule *denotes* a value at every step -- computed here by an
+# independent reference in plain Python arithmetic (math.floor / math.ceil
+# yield integers, `/` yields a float, int `//`, `%`, `+`, `-`, `*` stay
+# integers; documented phases of StepWise; the textbook formulas of linear /
+# exponential / cosine decay).  An operator given the schedule must, at step
+# s, do exactly what the same operator given that literal value does (same
+# seed, same inputs => identical output: "seeded operators are deterministic
+# functions of their seed and inputs"), and a selector must return the
+# documented number for that value (`n` items for an integer, ceil(n * len)
+# for a float).  The same must hold when the scheduled operator sits inside a
+# composition (the step must reach it) and inside an Evolution loop.
+# ---------------------------------------------------------------------------
+
+from pyglove.ext import scalars as scalars_lib  # pylint: disable=g-import-not-at-top,g-bad-import-order
+
+ENV['scalars'] = scalars_lib
+HDR = HDR + 'from pyglove.ext import scalars\n'
+
+PROBE_CALLS = []
+
+
+def probe(xs):
+  """Identity operation that counts how often it is invoked."""
+  PROBE_CALLS.append(len(xs))
+  return xs
+
+
+ENV['probe'] = probe
+
+SCHED_STEPS = 10
+
+
+def _stepwise_ref(phases):
+  """Reference for StepWise([(length, fn(phase_step))...]) called at 0, 1, 2..."""
+  def ref(s):
+    start = 0
+    for length, fn in phases:
+      if s < start + length:
+        return fn(s - start)
+      start += length
+    length, fn = phases[-1]
+    return fn(length - 1)       # "last value" once the schedule is over
+  return ref
+
+
+def schedule_catalogue(seed):
+  """Schedules as dicts: family, kind, src, ref (step -> value), flags."""
+  fl, ce = math.floor, math.ceil
+  cat = []
+
+  def add(family, kind, src, ref=None, stateful=False, steps=SCHED_STEPS, rng_=None):
+    cat.append(dict(family=family, kind=kind, src=src, ref=ref, stateful=stateful,
+                    steps=steps, range=rng_))
+
+  T = 'scalars.STEP'
+  # Integer-valued schedules (counts).
+  add('step', 'count', T, lambda s: s)
+  add('constant', 'count', 'scalars.Constant(2)', lambda s: 2)
+  add('constant', 'count', 'scalars.make_scalar(3)', lambda s: 3)
+  add('python-lambda', 'count', '(lambda s: 1 + s % 3)', lambda s: 1 + s % 3)
+  add('python-lambda', 'count', '(lambda s: s)', lambda s: s)
+  add('lambda', 'count', 'scalars.Lambda(lambda s: s % 3)', lambda s: s % 3)
+  add('lambda', 'count', 'scalars.make_scalar(lambda s: 1 + s % 2)', lambda s: 1 + s % 2)
+  add('add', 'count', f'({T} + 1)', lambda s: s + 1)
+  add('add', 'count', f'(1 + {T})', lambda s: 1 + s)
+  add('add', 'count', f'({T} + {T} % 2)', lambda s: s + s % 2)
+  add('sub', 'count', f'(9 - {T})', lambda s: 9 - s)
+  add('sub', 'count', f'({T} - {T} % 2)', lambda s: s - s % 2)
+  add('mul', 'count', f'({T} * 2)', lambda s: s * 2)
+  add('mul', 'count', f'(2 * ({T} % 3))', lambda s: 2 * (s % 3))
+  add('mod', 'count', f'({T} % 3)', lambda s: s % 3)
+  add('mod', 'count', f'(7 % ({T} + 2))', lambda s: 7 % (s + 2))
+  add('floordiv', 'count', f'({T} // 2)', lambda s: s // 2)
+  add('floordiv', 'count', f'(7 // ({T} + 1))', lambda s: 7 // (s + 1))
+  add('floor', 'count', f'(({T} / 4).floor() + 1)', lambda s: fl(s / 4) + 1)
+  add('floor', 'count', f'({T} * 0.6).floor()', lambda s: fl(s * 0.6))
+  add('floor', 'count', f'scalars.Floor({T} / 2)', lambda s: fl(s / 2))
+  add('floor', 'count', 'scalars.Constant(2.5).floor()', lambda s: 2)
+  add('floor', 'count', 'scalars.Floor(1.5)', lambda s: 1)
+  add('floor', 'count', f'{T}.floor()', lambda s: s)
+  add('ceil', 'count', f'(10 / ({T} + 1)).ceil()', lambda s: ce(10 / (s + 1)))
+  add('ceil', 'count', f'({T} * 0.3).ceil()', lambda s: ce(s * 0.3))
+  add('ceil', 'count', f'scalars.Ceiling({T} / 3)', lambda s: ce(s / 3))
+  add('ceil', 'count', 'scalars.Constant(1.2).ceil()', lambda s: 2)
+  add('ceil', 'count', f'{T}.ceil()', lambda s: s)
+  add('abs', 'count', f'abs({T} - 3)', lambda s: abs(s - 3))
+  add('neg', 'count', f'(-({T} - 9))', lambda s: -(s - 9))
+  add('neg', 'count', f'(-(-{T}))', lambda s: s)
+  # (`**` of schedules is math.pow, a float: only used below floor()/ceil())
+  add('pow', 'count', f'(2 ** ({T} % 3)).floor()', lambda s: fl(math.pow(2, s % 3)))
+  add('pow', 'count', f'(({T} % 4) ** 2).ceil()', lambda s: ce(math.pow(s % 4, 2)))
+  add('maths', 'count', f'scalars.sqrt({T}).floor()', lambda s: fl(math.sqrt(s)))
+  add('maths', 'count', f'scalars.log({T} + 2, 2).ceil()', lambda s: ce(math.log(s + 2, 2)))
+  add('stepwise', 'count', f'scalars.StepWise([(2, 1), (3, {T} + 2), (5, 4)])',
+      _stepwise_ref([(2, lambda p: 1), (3, lambda p: p + 2), (5, lambda p: 4)]), stateful=True)
+  add('stepwise', 'count',
+      f'scalars.StepWise([(0.25, 3), (0.75, ({T} / 2).floor())], total_steps=8)',
+      _stepwise_ref([(2, lambda p: 3), (6, lambda p: fl(p / 2))]), stateful=True, steps=8)
+  add('stepwise', 'count',
+      f'scalars.StepWise([(4, lambda s: s + 1), (4, ({T} * 1.5).ceil()), (2, scalars.Constant(2))])',
+      _stepwise_ref([(4, lambda p: p + 1), (4, lambda p: ce(p * 1.5)), (2, lambda p: 2)]), stateful=True)
+  # Float-valued schedules (proportions / probabilities in [0, 1]).
+  add('constant', 'proportion', 'scalars.Constant(0.5)', lambda s: 0.5)
+  add('python-lambda', 'proportion', '(lambda s: 0.25 * (s % 5))', lambda s: 0.25 * (s % 5))
+  add('lambda', 'proportion', 'scalars.Lambda(lambda s: 0.25 * (s % 5))', lambda s: 0.25 * (s % 5))
+  add('div', 'proportion', f'({T} / 16)', lambda s: s / 16)
+  add('div', 'proportion', f'(({T} % 5) / 4)', lambda s: (s % 5) / 4)
+  add('div', 'proportion', f'(1 / ({T} + 1))', lambda s: 1 / (s + 1))
+  add('mul', 'proportion', f'(({T} % 9) * 0.125)', lambda s: (s % 9) * 0.125)
+  add('sub', 'proportion', f'(1.0 - {T} / 16)', lambda s: 1.0 - s / 16)
+  add('linear', 'proportion', 'scalars.linear(16, 1.0, 0.0)', lambda s: 1.0 + s * ((0.0 - 1.0) / 16))
+  add('linear', 'proportion', 'scalars.linear(16, 0.25, 0.75)', lambda s: 0.25 + s * ((0.75 - 0.25) / 16))
+  add('exponential_decay', 'proportion', 'scalars.exponential_decay(0.5, 2)',
+      lambda s: 1.0 * math.pow(0.5, fl(s / 2.0)))
+  add('exponential_decay', 'proportion', 'scalars.exponential_decay(0.5, 3, start=0.75)',
+      lambda s: 0.75 * math.pow(0.5, fl(s / 3.0)))
+  add('cosine_decay', 'proportion', 'scalars.cosine_decay(8)',
+      lambda s: 0.5 * (1.0 - 0.0) * (1 + math.cos(math.pi * s / 8)) + 0.0, steps=9)
+  add('cyclic', 'proportion', 'scalars.cyclic(8)',
+      lambda s: 0.5 * (1.0 - 0.0) * (1 + math.cos(0.0 + math.pi * 2 * s / 8)) + 0.0)
+  add('maths', 'proportion', f'abs(scalars.sin({T}))', lambda s: abs(math.sin(s)))
+  add('stepwise', 'proportion',
+      'scalars.StepWise([(3, 1.0), (4, scalars.linear(4, 1.0, 0.0)), (3, 0.0)])',
+      _stepwise_ref([(3, lambda p: 1.0), (4, lambda p: 1.0 + p * ((0.0 - 1.0) / 4)), (3, lambda p: 0.0)]),
+      stateful=True)
+  # Seeded random schedules: documented range and type only.
+  add('random', 'random-count', f'scalars.Uniform(1, 3, seed={seed})', rng_=(1, 3))
+  add('random', 'random-count', f'scalars.Triangular(1, 4, seed={seed})', rng_=(1, 4))
+  add('random-floor', 'random-count', f'scalars.Uniform(0.0, 3.0, seed={seed}).floor()', rng_=(0, 3))
+  add('random-ceil', 'random-count', f'(scalars.Uniform(seed={seed}) * 3).ceil()', rng_=(0, 3))
+  add('random', 'random-proportion', f'scalars.Uniform(seed={seed})', rng_=(0.0, 1.0))
+  return cat
+
+
+def _is_count(v, lo=0):
+  return type(v) is int and v >= lo  # pylint: disable=unidiomatic-typecheck
+
+
+def _is_prop(v):
+  return type(v) is float and 0.0 <= v <= 1.0  # pylint: disable=unidiomatic-typecheck
+
+
+def schedule_slots(seed):
+  """Parameters that accept a schedule: name, template, accepted values, kind.
+
+  kind: 'selector:<oracle>' (items by identity + documented count), 'list'
+  (items by identity), 'dna' (new DNAs: closure + equality), 'evolution'.
+  """
+  s = seed
+  u = 'lambda xs: [1.0] * len(xs)'
+  n_ok = lambda v, size: _is_count(v) or _is_prop(v)
+  k0 = lambda v, size: _is_count(v)
+  k1 = lambda v, size: _is_count(v, 1)
+  pr = lambda v, size: _is_prop(v)
+  slots = [
+      ('selectors.First.n', 'selectors.First({n})', n_ok, 'selector:capped'),
+      ('selectors.Last.n', 'selectors.Last({n})', n_ok, 'selector:capped'),
+      ('selectors.Top.n', 'selectors.Top({n})', n_ok, 'selector:capped'),
+      ('selectors.Bottom.n', 'selectors.Bottom({n})', n_ok, 'selector:capped'),
+      ('selectors.Top.n', 'selectors.Top({n}, key=base.get_generation_id, cluster=True)', n_ok, 'selector:none'),
+      ('selectors.Random.n', f'selectors.Random({{n}}, seed={s})', n_ok, 'selector:capped'),
+      ('selectors.Random.n', f'selectors.Random({{n}}, replacement=True, seed={s})', n_ok, 'selector:exact'),
+      ('selectors.Sample.n', f'selectors.Sample({{n}}, {u}, seed={s})', n_ok, 'selector:exact'),
+      ('selectors.Proportional.n', f'selectors.Proportional({{n}}, {u})', n_ok, 'selector:exact'),
+      # Compositions whose own parameter is scheduled.
+      ('Repeat.k', '(selectors.First(2) * {n})', k0, 'list'),
+      ('Power.k', '(base.Identity()[1:] ** {n})', k0, 'list'),
+      ('Slice.index', 'base.Identity()[{n}]', lambda v, size: _is_count(v) and v < size, 'list'),
+      ('Choice.limit', 'base.Choice([(selectors.First(4), 1.0), (selectors.Last(3), 1.0), '
+       f'(selectors.Top(1), 1.0)], limit={{n}}, seed={s})', k1, 'list'),
+      ('Choice.probability', f'base.Choice([(selectors.Last(4), {{n}}), (selectors.First(2), {{n}})], seed={s})', pr, 'list'),
+      ('Choice.probability', f'selectors.First(3).with_prob({{n}}, seed={s})', pr, 'list'),
+      ('UntilChange.max_attempts', 'base.Lambda(probe).until_change({n})', k1, 'list'),
+      # DNA operators.
+      ('recombinators.KPoint.k', f'recombinators.KPoint({{n}}, seed={s})', k1, 'dna:2'),
+      ('where.Any.k', f'recombinators.Uniform(where=where.Any(k={{n}}, seed={s}), seed={s})', k0, 'dna:2'),
+      ('where.Any.k', f'recombinators.Order(where=where.Any(k={{n}}, seed={s}), seed={s})', k0, 'dna:2'),
+      ('Power.k', f'(mutators.Uniform(seed={s}) ** {{n}})', k0, 'dna:3'),
+      ('Repeat.k', f'(mutators.Uniform(seed={s}) * {{n}})', k0, 'dna:3'),
+      ('UntilChange.max_attempts', f'mutators.Uniform(where=lambda d: False, seed={s}).until_change({{n}})', k1, 'dna:1'),
+      ('pipeline', f'selectors.Random({{n}}, seed={s}) >> recombinators.Sample({u}, seed={s}) >> mutators.Uniform(seed={s})',
+       lambda v, size: _is_count(v, 1) or (_is_prop(v) and v > 0.0), 'dna:4'),
+      ('Evolution', 'ev.Evolution('
+       f'(selectors.Random({{n}}, seed={s}) + selectors.First(1)) >> mutators.Uniform(seed={s}), '
+       f'population_init=(pg.geno.Random(seed={s}), 4), '
+       'population_update=(selectors.Top({n}) | selectors.Last(3)))', n_ok, 'evolution'),
+  ]
+  # The step must reach a scheduled operator below every composition.
+  x = 'selectors.First({n})'
+  contexts = [
+      ('pipeline', f'(base.Identity() >> {x} >> base.Identity())'),
+      ('concatenation', f'(selectors.Last(1) + {x})'),
+      ('union', f'(selectors.First(0) | {x})'),
+      ('intersection', f'(base.Identity() & {x})'),
+      ('difference', f'(base.Identity() - {x})'),
+      ('symmetric-difference', f'(selectors.Last(1) ^ {x})'),
+      ('inversion', f'(~{x})'),
+      ('negation', f'(-{x})'),
+      ('slice', f'{x}[::-1]'),
+      ('repeat', f'({x} * 2)'),
+      ('power', f'({x} ** 2)'),
+      ('if_true', f'{x}.if_true(lambda xs: True)'),
+      ('if_false', f'{x}.if_false(lambda xs: False)'),
+      ('conditional', f'base.Conditional(lambda xs: len(xs) > 100, base.Identity(), {x})'),
+      ('choice', f'base.Choice([({x}, 1.0)], seed={s})'),
+      ('with_prob', f'{x}.with_prob(1.0, seed={s})'),
+      ('until_change', f'{x}.until_change(2)'),
+      ('for_each', f'base.Lambda(lambda xs: [xs[:4], xs[2:]]).for_each({x}).flatten()'),
+      ('global-state', f"({x}.as_global_state('k') >> base.GlobalStateGetter('k'))"),
+      ('union-list', f'base.Union([selectors.Last(1), {x}, selectors.Top(1)])'),
+      ('lambda', f'({x} >> (lambda xs: xs[::-1]))'),
+      ('nested', f'(~(selectors.Last(1) + ({x} ** 2)[0:3]) | {x}.if_true(lambda xs: True))'),
+  ]
+  for cname, tmpl in contexts:
+    slots.append((f'step-reaches/{cname}', tmpl, n_ok, 'list'))
+  return slots
+
+
+def run_op(op, pop, step):
+  """('ok', output, #probe calls) or ('exc', exception class name, message)."""
+  del PROBE_CALLS[:]
+  try:
+    if isinstance(op, str):
+      op = make(op)
+    out = op(pop, step=step)
+  except Exception as e:  # pylint: disable=broad-except
+    return ('exc', type(e).__name__, str(e)[:200])
+  return ('ok', out, len(PROBE_CALLS))
+
+
+def same_run(a, b, dna=False):
+  """Do two run_op results agree (items by identity, new DNAs by value)?"""
+  if a[0] != b[0]:
+    return False
+  if a[0] == 'exc':
+    return a[1] == b[1]
+  if a[2] != b[2] or not isinstance(a[1], list) or not isinstance(b[1], list):
+    return False
+  return dnas_equal(a[1], b[1]) if dna else _ids(a[1]) == _ids(b[1])
+
+
+def _show_run(r, pop):
+  if r[0] == 'exc':
+    return f'{r[1]}: {r[2]}'
+  if isinstance(r[1], list) and all(_isin(x, pop) for x in r[1]):
+    return f'items {_flat_idx(r[1], pop)}' + (f' after {r[2]} probe calls' if r[2] else '')
+  return repr(r[1])[:200]
+
+
+def evo_trace(src, S, n_steps=14):
+  """Proposals and population sizes of an Evolution run (or the exception)."""
+  try:
+    algo = make(src) if isinstance(src, str) else src
+    algo.setup(S)
+    out = []
+    for _ in range(n_steps):
+      d = algo.propose()
+      out.append((raw(d), len(algo.population)))
+      algo.feedback(d, reward_of(d, False))
+    return out
+  except Exception as e:  # pylint: disable=broad-except
+    return ('exc', type(e).__name__, str(e)[:200])
+
+
+def _value_ok(v, ref):
+  if type(v) is not type(ref):  # pylint: disable=unidiomatic-typecheck
+    return False
+  return v == ref or (isinstance(ref, float) and abs(v - ref) <= 1e-12)
+
+
+def _sel_count(oracle, v, size):
+  """Documented number of outputs of a selector for n == v on `size` inputs."""
+  npr = _nprime(v, size, 0)
+  if oracle == 'exact':
+    return npr
+  if oracle == 'capped':
+    return min(npr, size)
+  return None
+
+
+def drv_schedules(tier, seed):
+  random.seed(f'c14/drv_schedules/{seed}')   # code under test falls back to the global RNG
+  quick = tier == 'quick'
+  cat = schedule_catalogue(seed)
+  slots = schedule_slots(seed)
+  rec = Recorder(
+      'C14', 'scheduled hyper-parameters (pg.evolution.scalars): an operator given a schedule '
+      'behaves at step s like the operator given the value the schedule denotes at s',
+      scope=f'{len(cat)} schedules (STEP, Constant, Lambda, make_scalar, python lambdas; + - * / // % '
+      'abs neg floor ceil pow sqrt log; StepWise by length and by proportion; linear / exponential / '
+      'cosine decay, cyclic; seeded Uniform / Triangular) x steps 0..9 x '
+      f'{len(slots)} parameter slots (n of First/Last/Top(+cluster)/Bottom/Random(+replacement)/Sample/'
+      'Proportional; k of Repeat, Power, KPoint, where.Any; Slice index; Choice limit and '
+      'probabilities; until_change max_attempts; a scheduled selector below every composition '
+      'operator; reproduction and population_update of an Evolution loop) on populations of 5/8 DNAs')
+  r = rng(seed, 'c14-sched')
+  flat = space('flat')
+  sel_pops = {}
+  for size in (5, 8):
+    sel_pops[size] = with_fitness([pg.random_dna(flat, r) for _ in range(size)], r)
+  dna_spaces = ['flat', 'perm', 'multi-DS', 'floats']
+  dna_pops = {name: with_fitness(parents_of(name, r, 4), r) for name in dna_spaces}
+
+  def case(cid, key, ok, msg='', wit=''):
+    if ok:
+      rec.case(cid, key, True)
+    else:
+      rec.case(cid, key, False, msg() if callable(msg) else msg, wit() if callable(wit) else wit)
+
+  few = {}      # per family: the first schedule only (for the expensive slots)
+  for sc in cat:
+    few.setdefault((sc['family'], sc['kind']), sc['src'])
+
+  for ci, sc in enumerate(cat):
+    fam, kind, ssrc = sc['family'], sc['kind'], sc['src']
+    steps = list(range(sc['steps']))
+    is_random = kind.startswith('random')
+    first_of_family = few[(fam, kind)] == ssrc
+    # What the schedule itself yields (only used to name a failure: a wrong
+    # value / type reaching the operators is filed under the schedule family,
+    # a correct value mishandled by an operator under the parameter slot).
+    try:
+      inst = make(ssrc)
+      vals = [inst(s) for s in steps] if (sc['stateful'] or is_random) else [make(ssrc)(s) for s in steps]
+    except Exception as e:  # pylint: disable=broad-except
+      vals = [e] * len(steps)
+    if is_random:
+      lo, hi = sc['range']
+      refs = None
+      sched_ok = all(type(v) is type(lo) and lo <= v <= hi for v in vals)  # pylint: disable=unidiomatic-typecheck
+    else:
+      refs = [sc['ref'](s) for s in steps]
+      sched_ok = all(_value_ok(v, x) for v, x in zip(vals, refs))
+    table = None if refs is None else '(lambda step: %r[step])' % (
+        {s: sc['ref'](s) for s in range(40)} if not sc['stateful'] else dict(zip(steps, refs)),)
+
+    def cid(slot, check):
+      return (f'scheduled.{slot}.{check}' if sched_ok
+              else f'schedule/{fam}.wrong-value-reaches-operators')
+
+    for li, (slot, tmpl, accepts, okind) in enumerate(slots):
+      a_src = tmpl.format(n=ssrc)
+      expensive = okind.startswith('dna') or okind == 'evolution' or slot.startswith('step-reaches/')
+      if expensive and not first_of_family and (quick or okind == 'evolution'):
+        continue
+      if okind.startswith('selector') or okind == 'list':
+        size = (5, 8)[(ci + li) % 2]
+        pops = [('flat', sel_pops[size])] if quick else [('flat', sel_pops[5]), ('flat', sel_pops[8])]
+      elif okind.startswith('dna'):
+        k = int(okind[4:])
+        names = [dna_spaces[(ci + li) % len(dna_spaces)]] if quick else dna_spaces
+        if 'Order(' in tmpl:
+          names = ['perm']
+        pops = [(nm, dna_pops[nm][:k]) for nm in names]
+      else:
+        pops = [('flat', None)]
+      for name, pop in pops:
+        size = len(pop) if pop is not None else 0
+        psrc = pop_src(name, pop, fitness=True) if pop is not None else spec_src(name)
+        if pop is not None:
+          psrc += 'for i, d in enumerate(pop): base.set_generation_id(d, i % 3)\n'
+        key0 = (slot, a_src, name, size)
+        # -------------------------------------------------------------- random
+        if is_random:
+          if not okind.startswith('selector') or kind == 'random-proportion' and not accepts(0.5, size):
+            continue
+          oracle = okind.split(':')[1]
+          lo, hi = sc['range']
+          runs = []
+          for _ in range(2):
+            op = outcome(make, a_src)
+            runs.append([run_op(op[1], pop, s) if op[0] == 'ok' else ('exc', op[1].__name__, '') for s in steps])
+          for s, ra, rb in zip(steps, runs[0], runs[1]):
+            key = key0 + (s,)
+            wit = lambda s=s: (HDR + psrc + f'op = {a_src}\nouts = [op(pop, step=s) for s in range({s + 1})]\n')
+            if ra[0] != 'ok' or not isinstance(ra[1], list):
+              case(cid(slot, 'call'), key, False, lambda: 'unexpected ' + _show_run(ra, pop), wit)
+              continue
+            case(cid(slot, 'members-only'), key, all(_isin(o, pop) for o in ra[1]),
+                 lambda: f'output {ra[1]!r} has non-members', wit)
+            wlo, whi = _sel_count(oracle, lo, size), _sel_count(oracle, hi, size)
+            if wlo is not None:
+              case(cid(slot, 'documented-count'), key, wlo <= len(ra[1]) <= whi,
+                   lambda: f'{len(ra[1])} outputs at step {s} for n = {ssrc} (values in [{lo}, {hi}]: '
+                   f'documented {wlo}..{whi} of {size} inputs)',
+                   lambda: wit() + f'assert all({wlo} <= len(o) <= {whi} for o in outs), [len(o) for o in outs]')
+            case(cid(slot, 'deterministic'), key, same_run(ra, rb),
+                 lambda: f'fresh operators with the same seeds disagree: {_show_run(ra, pop)} vs {_show_run(rb, pop)}',
+                 lambda: wit() + f'op2 = {a_src}\nassert [list(map(id, o)) for o in outs] == '
+                 f'[list(map(id, op2(pop, step=s))) for s in range({s + 1})]')
+          continue
+        # ----------------------------------------------------------- evolution
+        if okind == 'evolution':
+          if sc['stateful'] or not all(accepts(x, size) for x in refs):
+            continue
+          b_src = tmpl.format(n=table)
+          S = space(name)
+          ta, tb = evo_trace(a_src, S), evo_trace(b_src, S)
+          case(cid(slot, 'same-as-denoted-values'), key0, ta == tb and isinstance(ta, list),
+               lambda: 'an Evolution whose selectors use the schedule and one that uses a python function '
+               f'returning the denoted values {refs} diverge: '
+               + (f'{ta!r}'[:200] if not isinstance(ta, list) else
+                  f'first difference at proposal #{next((i for i, (p, q) in enumerate(zip(ta, tb)) if p != q), "?")}'
+                  if isinstance(tb, list) else f'{tb!r}'[:200]),
+               lambda: HDR + psrc + f'a = {a_src}\nb = {b_src}\nta, tb = evo_trace(a, S), evo_trace(b, S)\n'
+               'assert isinstance(ta, list) and ta == tb, (ta, tb)')
+          if isinstance(ta, list):
+            algo = make(a_src)
+            bad = None
+            for i, (rw, _) in enumerate(ta):
+              c = check_child(mk(S, from_raw(rw)), S)
+              if c:
+                bad = f'proposal #{i}: {c[1]}'
+                break
+            case(cid(slot, 'valid+aligned'), key0, bad is None, bad,
+                 lambda: HDR + psrc + f'a = {a_src}\na.setup(S)\nfor i in range(14):\n  d = a.propose(); '
+                 'assert_child(d, S); a.feedback(d, reward_of(d, False))')
+            del algo
+          continue
+        # ------------------------------------------------- deterministic kinds
+        dna = okind.startswith('dna')
+        if sc['stateful']:
+          if not all(accepts(x, size) for x in refs):
+            continue
+          b_src = tmpl.format(n=table)
+          a_op, b_op = outcome(make, a_src), outcome(make, b_src)
+          pairs = []
+          for s in steps:
+            fz = Frozen(pop)
+            ra = run_op(a_op[1], pop, s) if a_op[0] == 'ok' else ('exc', a_op[1].__name__, '')
+            d = fz.diff()
+            rb = run_op(b_op[1], pop, s) if b_op[0] == 'ok' else ('exc', b_op[1].__name__, '')
+            pairs.append((s, ra, rb, d, b_src))
+          seq = True
+        else:
+          ok_steps = [s for s, x in zip(steps, refs) if accepts(x, size)]
+          if quick and expensive:
+            ok_steps = ok_steps[:2] + ok_steps[4:5] + ok_steps[-1:] if len(ok_steps) > 4 else ok_steps
+          pairs = []
+          for s in ok_steps:
+            b_src = tmpl.format(n=repr(refs[s]))
+            fz = Frozen(pop)
+            ra = run_op(a_src, pop, s)
+            d = fz.diff()
+            rb = run_op(b_src, pop, s)
+            pairs.append((s, ra, rb, d, b_src))
+          seq = False
+        for s, ra, rb, d, b_src in pairs:
+          key = key0 + (s,)
+          v = refs[s]
+          if seq:
+            wit = lambda s=s, b_src=b_src: (
+                HDR + psrc + f'a = {a_src}\nb = {b_src}\nfor s in range({s + 1}):\n'
+                '  ra, rb = run_op(a, pop, s), run_op(b, pop, s)\n'
+                f'assert same_run(ra, rb, {dna}), (ra, rb)')
+          else:
+            wit = lambda s=s, b_src=b_src: (
+                HDR + psrc + f'a = {a_src}\nb = {b_src}   # value of the schedule at step {s}\n'
+                f'ra, rb = run_op(a, pop, {s}), run_op(b, pop, {s})\n'
+                f'assert same_run(ra, rb, {dna}), (ra, rb)')
+          case(cid(slot, 'same-as-denoted-value'), key, same_run(ra, rb, dna),
+               lambda: f'at step {s} the schedule {ssrc} denotes {v!r}; with the schedule: '
+               f'{_show_run(ra, pop)}; with {v!r}: {_show_run(rb, pop)}', wit)
+          case(cid(slot, 'inputs-unchanged'), key, d is None, d,
+               lambda: HDR + psrc + f'a = {a_src}\nassert_unchanged(lambda p: run_op(a, p, {s}), pop)')
+          if ra[0] != 'ok' or not isinstance(ra[1], list):
+            continue
+          if okind.startswith('selector'):
+            want = _sel_count(okind.split(':')[1], v, size)
+            case(cid(slot, 'members-only'), key, all(_isin(o, pop) for o in ra[1]),
+                 lambda: f'output {ra[1]!r} has non-members', wit)
+            if want is not None:
+              case(cid(slot, 'documented-count'), key, len(ra[1]) == want,
+                   lambda: f'{len(ra[1])} outputs at step {s} for n = {ssrc} (= {v!r}): documented {want} '
+                   f'of {size} inputs',
+                   lambda: HDR + psrc + f'op = {a_src}\n' + (
+                       f'outs = [op(pop, step=s) for s in range({s + 1})]\nassert len(outs[-1]) == {want}, len(outs[-1])'
+                       if seq else f'out = op(pop, step={s})\nassert len(out) == {want}, len(out)'))
+          elif dna:
+            S = space(name)
+            first = None
+            for c in ra[1]:
+              first = check_child(c, S)
+              if first:
+                break
+            case(cid(slot, 'valid+aligned'), key, first is None, first and first[1],
+                 lambda: HDR + psrc + f'a = {a_src}\nfor c in a(pop, step={s}):\n  assert_child(c, S)')
+  return rec.result()
+
+
 DRIVERS = [drv_flatten_foreach, drv_mutators, drv_recombinators, drv_selectors, drv_algebra, drv_pipelines,
-           drv_weighted]
+           drv_weighted, drv_schedules]
 
 
 def replay(rec):
